@@ -146,7 +146,13 @@ def r2_project_grid(ctx):
         if spc is not None and reg is not None and shp is not None:
             d = spc[2][1]
             oksp = True if d[0] == "call" and callee(d) == "verde.coordinates.shape_to_spacing" and d[2] == (reg, shp) else (False if d[0] == "call" and callee(d) == "verde.coordinates.shape_to_spacing" and d[2] == (shp, reg) else None)
-        ctx.check("R2", "%s|default-spacing|%s" % (PG, tag), oksp, "the default spacing is shape_to_spacing(region, shape)", bad="shape_to_spacing receives (shape, region)", fn=PG)
+        whysp = "shape_to_spacing receives (shape, region)"
+        if oksp is None and spc is not None and reg is not None and shp is not None:
+            d = spc[2][1]
+            if d[0] == "call" and callee(d) == "verde.coordinates.shape_to_spacing" and len(d[2]) == 2 and d[2][1] == shp and d[2][0] != reg and canon(d[2][0]) == canon(dreg):
+                # the spacing handed to the gridder must fit the region that is gridded: the requested one, not the data's bounding box
+                oksp, whysp = False, "the default spacing is derived from the bounding box of the projected data even when another region is requested: the output grid has the wrong shape and spacing"
+        ctx.check("R2", "%s|default-spacing|%s" % (PG, tag), oksp, "the default spacing is shape_to_spacing(region, shape)", bad=whysp, fn=PG)
         okcr = any(e.kind == "call" and callee(e.data[0]) == "verde.coordinates.check_region" and reg is not None and e.data[0][2] == (reg,) for e in p.events)
         ctx.check("R2", "%s|check_region|%s" % (PG, tag), True if okcr else False, "the (given or default) region is validated", bad="the region is not validated", fn=PG)
         # pipeline
